@@ -263,6 +263,12 @@ func (cc *cmapCase) seen(c *fw.Ctx) {
 	c.Count("cmap_bfrange_offset_multiunit", int64(cc.st.MultiUnitOffsetRanges))
 	c.Count("cmap_sections", int64(cc.st.CharSections+cc.st.RangeSections))
 	c.Count("cmap_mixed_form_sections", int64(cc.st.MixedRangeSections))
+	if cc.st.DamagedSection != "" {
+		c.Count("cmap_with_one_damaged_extra_entry", 1)
+		if cc.st.CharSections+cc.st.RangeSections > 1 {
+			c.Count("cmap_damaged_entry_beside_other_sections", 1)
+		}
+	}
 	c.Count("cmap_arrays_sharing_a_line", int64(cc.st.ArraysSharingLine))
 	bucket := func(n int) string {
 		switch {
